@@ -252,7 +252,7 @@ package dns
 //@   ensures fail:  err != nil ==> off1 == len(msg)
 //@   ensures room:  off + 1 <= len(msg) ==> err == nil
 //@   ensures frame: forall k in 0..len(msg) :: (k < off || k >= off + 1) ==> msg[k] == old(msg[k])
-//@   modifies A.uint8.v
+//@   writes msg
 
 //@ func packUint16 [C01 C08]
 //@   requires 0 <= off
@@ -260,7 +260,7 @@ package dns
 //@   ensures fail:  err != nil ==> off1 == len(msg)
 //@   ensures room:  off + 2 <= len(msg) ==> err == nil
 //@   ensures frame: forall k in 0..len(msg) :: (k < off || k >= off + 2) ==> msg[k] == old(msg[k])
-//@   modifies A.uint8.v
+//@   writes msg
 
 //@ func packUint32 [C01 C08]
 //@   requires 0 <= off
@@ -268,7 +268,7 @@ package dns
 //@   ensures fail:  err != nil ==> off1 == len(msg)
 //@   ensures room:  off + 4 <= len(msg) ==> err == nil
 //@   ensures frame: forall k in 0..len(msg) :: (k < off || k >= off + 4) ==> msg[k] == old(msg[k])
-//@   modifies A.uint8.v
+//@   writes msg
 
 //@ func packUint48 [C01 C08]
 //@   requires 0 <= off
@@ -276,7 +276,7 @@ package dns
 //@   ensures fail:  err != nil ==> off1 == len(msg)
 //@   ensures room:  off + 6 <= len(msg) ==> err == nil
 //@   ensures frame: forall k in 0..len(msg) :: (k < off || k >= off + 6) ==> msg[k] == old(msg[k])
-//@   modifies A.uint8.v
+//@   writes msg
 
 //@ func packUint64 [C01 C08]
 //@   requires 0 <= off
@@ -284,15 +284,18 @@ package dns
 //@   ensures fail:  err != nil ==> off1 == len(msg)
 //@   ensures room:  off + 8 <= len(msg) ==> err == nil
 //@   ensures frame: forall k in 0..len(msg) :: (k < off || k >= off + 8) ==> msg[k] == old(msg[k])
-//@   modifies A.uint8.v
+//@   writes msg
 
 //@ func fromBase64 [C01 C02 C08]
-//@   ensures err == nil ==> len(buf) <= (len(s) / 4) * 3 + 3
+//@   ensures len(buf) <= len(s)
+//@   pure
 //@ func fromBase32 [C01 C02 C08]
+//@   ensures len(buf) <= len(s)
+//@   writes s
 
 //@ func packStringBase64 [C01 C08]
 //@   requires 0 <= off
 //@   ensures ok:    ret1 == nil ==> off <= ret0 && ret0 <= len(msg)
 //@   ensures fail:  ret1 != nil ==> ret0 == len(msg)
 //@   ensures frame: forall k in 0..off :: msg[k] == old(msg[k])
-//@   modifies A.uint8.v
+//@   writes msg
